@@ -796,10 +796,12 @@ def check_C16(tier: str, seed: int) -> int:
         # interpretation points) and the focal losses (Kernels.tla rows of kind "focal", evaluated on a grid of probabilities)
         icells, ibad = stage_interp(out, scratch, funcs=("softmax", "logsoftmax", "softmax_crossentropy", "batchnorm", "sigmoid", "elu", "glu"))
         _, nfocal, nfbad = stage_kernels(out, kinds=("focal",))
+        ngru, ngbad = stage_recurrent(out, what=("value",))
         out.coverage["interp_cells"] = icells
         out.coverage["focal_rows"] = nfocal
-        total += icells + nfocal
-        agree += icells + nfocal - ibad - nfbad
+        out.coverage["gru_cells"] = ngru
+        total += icells + nfocal + ngru
+        agree += icells + nfocal + ngru - ibad - nfbad - ngbad
         out.coverage["exhaustive"] = True
         out.coverage["configurations_executed"] = total
         out.coverage["configurations_agreeing"] = agree
@@ -1018,6 +1020,37 @@ def check_C03(tier: str, seed: int) -> int:
     return out.finish()
 
 
+def stage_recurrent(out: core.Outcome, what=("value", "vjp")):
+    """Cells of spec/tables/Recurrent.tla: the GRU's documented recurrence unrolled by TLC, evaluated by the harness."""
+    from . import recurrent
+    from .driver import reset_global_state
+
+    rc, o, wall = tlc.run_tlc(os.path.join(tlc.SPEC, "tables", "Recurrent.tla"),
+                              os.path.join(tlc.SPEC, "tables", "Recurrent.cfg"), workers=1, timeout=900)
+    st = tlc.parse_stats(o)
+    items, bad = replay.parse_behaviours(o)
+    if rc != 0 or st is None or bad or len(items) != st["distinct"]:
+        out.machinery(f"Recurrent.tla failed rc={rc} bad={bad}: {o[-1200:]}")
+        return 0, 0
+    out.coverage["states"] = out.coverage.get("states", 0) + st["distinct"]
+    out.coverage["transitions"] = out.coverage.get("transitions", 0) + st["generated"]
+    nb = 0
+    for it in items:
+        out.judged += 1
+        reset_global_state()
+        try:
+            r = recurrent.run_cell(it, what=what)
+        except Exception as ex:  # noqa: BLE001
+            r = ("exception", "none", f"{type(ex).__name__}: {str(ex)[:160]}")
+        if r is None:
+            continue
+        nb += 1
+        out.violation({"kind": "recurrent-table", "rerun": ["recurrent", "run_cell", [it, list(what)]], "cell": it["cell"], "what": r[0],
+                       "expected": str(r[1]), "observed": str(r[2])},
+                      f"GRU cell {json.dumps(it['cell'])}: {r[0]}: the documented recurrence gives {str(r[1])[:120]}, MyGrad {str(r[2])[:120]}")
+    return len(items), nb
+
+
 def stage_kernels(out: core.Outcome, kinds=None):
     """Rows of spec/tables/Kernels.tla (optionally only some kinds) evaluated on their domain grids."""
     from . import kernels
@@ -1118,7 +1151,7 @@ def _uncovered_operations(seen_ops: set, kernel_rows: set):
              "ReLu": "relu", "ApplyMask": "uout", "UnView": "setitem", "Absolute": "abs", "CumSum": "cumsum", "CumProd": "cumprod",
              "AddSequence": "addseq", "MultiplySequence": "mulseq", "ConvND": "conv", "MaxPoolND": "maxpool",
              "MarginRanking": "margin_ranking", "MulticlassHinge": "multiclass_hinge", "Sigmoid": "sigmoid", "Softmax": "softmax",
-             "LogSoftmax": "logsoftmax", "FocalLoss": "focal_loss", "SoftmaxCrossEntropy": "softmax_crossentropy", "ELU": "elu", "StdDev": "std",
+             "LogSoftmax": "logsoftmax", "FocalLoss": "focal_loss", "GRUnit": "gru", "SoftmaxCrossEntropy": "softmax_crossentropy", "ELU": "elu", "StdDev": "std",
              "Norm": "norm", "BatchNorm": "batchnorm", "SELU": "selu", "AtLeast1D": "atleast", "AtLeast2D": "atleast",
              "AtLeast3D": "atleast", "_AtLeastKD": "atleast"}
     out = []
@@ -1202,12 +1235,18 @@ def check_C02(tier: str, seed: int) -> int:
         krows, nrows, nk = stage_kernels(out)
         # interpretation points: exp / log / sqrt kernels where value or VJP is rational (Interp.tla)
         icells, ibad = stage_interp(out, scratch, seen_ops)
+        # the GRU: documented recurrence unrolled by TLC (Recurrent.tla), value and VJP of every input
+        ngru, ngbad = stage_recurrent(out)
+        if ngru:
+            seen_ops.add("gru")
+        out.coverage["gru_cells"] = ngru
+        out.coverage["gru_cells_disagreeing"] = ngbad
         out.coverage["interp_cells"] = icells
         out.coverage["interp_cells_disagreeing"] = ibad
         out.coverage.update({"exhaustive": True, "optable_cells": total, "per_group": per, "kernel_rows": nrows,
                              "kernel_rows_disagreeing": nk,
                              "traces_validated_against_impl": total + nrows + sum(
-                                 t["programs"] for t in out.coverage.get("trace_stages", [])) + icells,
+                                 t["programs"] for t in out.coverage.get("trace_stages", [])) + icells + ngru,
                              "operations_without_a_row": _uncovered_operations(seen_ops, krows)})
     except tlc.MachineryError as e:
         out.machinery(str(e)[:3000])
